@@ -312,3 +312,100 @@ CASES += [
  dict(id='set-insert-loop', kind='silent', file=S, old=_INSERT_OLD, new=_insert_loop('0'), checks=['C19', 'C12']),
  dict(id='set-insert-loop-from-one', kind='fire', file=S, old=_INSERT_OLD, new=_insert_loop('1'), expect={'C19': 'insert'}),
 ]
+
+
+def apply_case(repo, c):
+    """apply one case to the scratch copy `repo`; False if it does not apply.  A case is either one textual replacement
+    (old -> new, first occurrence), or `subs`: a list of (regex, replacement) applied to the whole file (each must match)."""
+    import os, re
+    p = os.path.join(repo, c['file'])
+    try:
+        s = open(p).read()
+    except OSError:
+        return False
+    if 'subs' in c:
+        for rx, rep in c['subs']:
+            s2, n = re.subn(rx, rep, s)
+            if n == 0: return False
+            s = s2
+    else:
+        if c['old'] not in s: return False
+        s = s.replace(c['old'], c['new'], 1)
+    open(p, 'w').write(s)
+    return True
+
+CASES += [
+ # locals renamed throughout: roles are found by what the variables do, not by how they are spelt
+ dict(id='clique-rename-locals', kind='silent', file=C, subs=[(r'\bv1\b', 'a'), (r'\bv2\b', 'b'), (r'\bis_undirected\b', 'symmetric'), (r'\bedges_complement\b', 'non_edges'),
+                                                             (r'\bshow_all\b', 'every_clique'), (r'\bvertices\b', 'nodes'), (r'\bedges\b', 'arcs')], checks=['C16']),
+ dict(id='clique-continue-guard', kind='silent', file=C, old='''            if v1 != v2 {
+                if is_undirected {
+                    if !(edges.contains(&(v1.to_string(), v2.to_string()))
+                        || edges.contains(&(v2.to_string(), v1.to_string()))
+                        || edges_complement.contains(&(v2.to_string(), v1.to_string())))
+                    {
+                        edges_complement.push((v1.to_string(), v2.to_string()));
+                    }
+                } else if !edges.contains(&(v1.to_string(), v2.to_string())) {
+                    edges_complement.push((v1.to_string(), v2.to_string()));
+                }
+            }
+''', new='''            if v1 == v2 {
+                continue;
+            }
+            let forward = (v1.to_string(), v2.to_string());
+            if is_undirected {
+                let backward = (v2.to_string(), v1.to_string());
+                if !(edges.contains(&forward) || edges.contains(&backward) || edges_complement.contains(&backward)) {
+                    edges_complement.push(forward);
+                }
+            } else if !edges.contains(&forward) {
+                edges_complement.push(forward);
+            }
+''', checks=['C16']),
+ dict(id='clique-continue-guard-wrong', kind='fire', file=C, old='''            if v1 != v2 {
+                if is_undirected {
+                    if !(edges.contains(&(v1.to_string(), v2.to_string()))
+                        || edges.contains(&(v2.to_string(), v1.to_string()))
+                        || edges_complement.contains(&(v2.to_string(), v1.to_string())))
+                    {
+                        edges_complement.push((v1.to_string(), v2.to_string()));
+                    }
+                } else if !edges.contains(&(v1.to_string(), v2.to_string())) {
+                    edges_complement.push((v1.to_string(), v2.to_string()));
+                }
+            }
+''', new='''            if v1 == v2 {
+                continue;
+            }
+            let forward = (v1.to_string(), v2.to_string());
+            if is_undirected {
+                let backward = (v2.to_string(), v1.to_string());
+                if !(edges.contains(&forward) || edges_complement.contains(&backward)) {
+                    edges_complement.push(forward);
+                }
+            } else if !edges.contains(&forward) {
+                edges_complement.push(forward);
+            }
+''', expect={'C16': 'complement-edge'}),
+]
+
+CASES += [
+ dict(id='graph-rename-locals', kind='silent', file=G, subs=[(r'\bselection\b', 'graph'), (r'\bvertex_map\b', 'origin'), (r'\bcolor_map\b', 'shade'), (r'\bnew_edges\b', 'product'),
+                                                            (r'\bov1\b', 'a0'), (r'\bov2\b', 'b0'), (r'\bc1\b', 'ka'), (r'\bc2\b', 'kb'), (r'\bnum_colors\b', 'k'),
+                                                            (r'\bedge_record\b', 'rec'), (r'\bnum_edges\b', 'm')], checks=['C18']),
+ dict(id='graph-match-forms', kind='silent', file=G, old='''    if let Some(edges) = edges.get(0..num_edges) {
+        Ok(edges.to_vec())
+    } else {
+        Err(anyhow::anyhow!(
+            "Cannot satisfy the desired amount of edges"
+        ))
+    }
+''', new='''    match edges.get(0..num_edges) {
+        Some(selected) => Ok(selected.to_vec()),
+        None => Err(anyhow::anyhow!("Cannot satisfy the desired amount of edges")),
+    }
+''', checks=['C18']),
+ dict(id='graph-complete-flag-swapped', kind='fire', file=G, old='generate_graph(vertices, edges, args.undirected)?', new='generate_graph(vertices, edges, !args.undirected)?', expect={'C18': 'generate_graph'}),
+ dict(id='graph-random-edges-off', kind='fire', file=G, old='generate_graph(args.vertices.unwrap(), args.edges.unwrap(), args.undirected)?', new='generate_graph(args.vertices.unwrap(), args.edges.unwrap() + 1, args.undirected)?', expect={'C18': 'random graph call'}),
+]
